@@ -983,3 +983,52 @@ impl CtlStatus3 {
   pub fn closed(&self) -> bool { self.flag.load(Ordering::Relaxed) != 0 }
   pub fn announce(&self) { let _ = self.flag.compare_exchange(0, 2, Ordering::AcqRel, Ordering::Acquire); }
 }
+
+// ---------------------------------------------------------------- C03.S10
+/// "last" that keeps the first item
+pub struct FirstKeeper<O, Item> { observer: O, last: Option<Item> }
+impl<O, Item, Err> Observer<Item, Err> for FirstKeeper<O, Item>
+where O: Observer<Item, Err> {
+  fn next(&mut self, value: Item) { if self.last.is_none() { self.last = Some(value); } }
+  fn error(self, err: Err) { self.observer.error(err) }
+  fn complete(mut self) {
+    if let Some(v) = self.last.take() { self.observer.next(v) }
+    self.observer.complete();
+  }
+  fn is_finished(&self) -> bool { self.observer.is_finished() }
+}
+/// scan that emits the accumulator before it is updated
+pub struct StaleScan<O, F, A> { observer: O, f: F, acc: A }
+impl<O, F, A, Item, Err> Observer<Item, Err> for StaleScan<O, F, A>
+where O: Observer<A, Err>, F: FnMut(A, Item) -> A, A: Clone {
+  fn next(&mut self, value: Item) {
+    self.observer.next(self.acc.clone());
+    self.acc = (self.f)(self.acc.clone(), value);
+  }
+  fn error(self, err: Err) { self.observer.error(err) }
+  fn complete(self) { self.observer.complete() }
+  fn is_finished(&self) -> bool { self.observer.is_finished() }
+}
+/// pairwise that emits (current, previous)
+pub struct SwappedPairs<O, Item> { observer: O, prev: Option<Item> }
+impl<O, Item, Err> Observer<Item, Err> for SwappedPairs<O, Item>
+where O: Observer<(Item, Item), Err>, Item: Clone {
+  fn next(&mut self, value: Item) {
+    if let Some(p) = self.prev.replace(value.clone()) {
+      self.observer.next((value, p));
+    }
+  }
+  fn error(self, err: Err) { self.observer.error(err) }
+  fn complete(self) { self.observer.complete() }
+  fn is_finished(&self) -> bool { self.observer.is_finished() }
+}
+
+// ---------------------------------------------------------------- C01.P2 (clone through a helper)
+fn ctl_dup<T: Clone>(t: &T) -> T { t.clone() }
+pub struct HelperCloner<O>(O);
+impl<Item, Err, O: Observer<Item, Err> + Clone> Observer<Item, Err> for HelperCloner<O> {
+  fn next(&mut self, value: Item) { let mut copy = ctl_dup(&self.0); copy.next(value) }
+  fn error(self, err: Err) { self.0.error(err) }
+  fn complete(self) { self.0.complete() }
+  fn is_finished(&self) -> bool { self.0.is_finished() }
+}
